@@ -116,7 +116,7 @@ def execute(run):
     binary = build_driver()
     info = driver_info(binary)
     extra = {'circles': info['circles']}
-    n = 60 if run.tier == 'quick' else 800
+    n = 250 if run.tier == 'quick' else 1200
     k = 16 if run.tier == 'quick' else 32
     run.run_shards(binary, [{'name': 's-%d' % i, 'n': n} for i in range(k)], extra=extra)
 
